@@ -20,6 +20,11 @@ def seeded(ids, tier="quick", seeds=("1",)):
     for name in names:
         d = os.path.join(base, name)
         meta = json.load(open(os.path.join(d, "meta.json")))
+        if meta.get("not_detected_reason"):
+            report.append({"id": name, "property": meta["property"], "caught": False, "checks": {},
+                           "not_detected_reason": meta["not_detected_reason"]})
+            print(f"{name}: NOT-DETECTED (documented: outside what the property states)")
+            continue
         props = meta.get("detected_by") or [meta["property"]]
         scratch = f"/tmp/xsim_seeded_{name}_{os.getpid()}"
         shutil.rmtree(scratch, ignore_errors=True)
